@@ -466,6 +466,76 @@ func rulesC15(w *World, r *Report) {
 		}
 		r.Check(bad == "", "C15.R7", "cmd:split-piece-checked", "cmd", fmt.Sprintf("%d pieces of a split taken in package cmd, each after a length test", n), bad+": a response (or line) without the separator makes the command panic with index out of range")
 	}
+	// the client side does not hang on foreign text: every loop in the cmd functions below the *Remote readers is
+	// driven by its input getting shorter — a counter against a length, a range, or a Scanner — not by a predicate on
+	// the data that its body is hoped to make false
+	{
+		var roots []*ssa.Function
+		for _, f := range cmdFuncs(w) {
+			for _, c := range callsIn(f) {
+				if isCallToPkgFunc(c, "net/http", "Get") {
+					roots = append(roots, f)
+					break
+				}
+			}
+		}
+		scope := map[*ssa.Function]bool{}
+		for _, root := range roots {
+			for g := range moduleReachable(w, []*ssa.Function{root}, nil) {
+				if g.Pkg == w.Cmd {
+					scope[g] = true
+				}
+			}
+		}
+		var fs []*ssa.Function
+		for g := range scope {
+			fs = append(fs, g)
+		}
+		sort.Slice(fs, func(i, j int) bool { return funcName(fs[i]) < funcName(fs[j]) })
+		bad := ""
+		n := 0
+		for _, g := range fs {
+			for _, b := range g.Blocks {
+				if !isLoopHeader(b) || len(b.Instrs) == 0 {
+					continue
+				}
+				n++
+				iff, ok := b.Instrs[len(b.Instrs)-1].(*ssa.If)
+				if !ok {
+					continue // for { ... } with exits inside: judged by its exits' tests below
+				}
+				okLoop := false
+				cond, _ := stripNot(iff.Cond)
+				switch t := cond.(type) {
+				case *ssa.BinOp:
+					for _, side := range []ssa.Value{t.X, t.Y} {
+						if lc, isC := side.(*ssa.Call); isC {
+							if bi, isB := lc.Common().Value.(*ssa.Builtin); isB && bi.Name() == "len" {
+								okLoop = true
+							}
+						}
+						if _, isK := side.(*ssa.Const); isK {
+							if _, isPhi := t.X.(*ssa.Phi); isPhi {
+								okLoop = true // a counted loop
+							}
+						}
+					}
+				case *ssa.Call:
+					if isMethodCall(t, "bufio", "Scanner", "Scan") {
+						okLoop = true
+					}
+				case *ssa.Extract:
+					if _, isNext := t.Tuple.(*ssa.Next); isNext {
+						okLoop = true
+					}
+				}
+				if !okLoop && bad == "" {
+					bad = "the loop at " + w.blockPos(b) + " in " + funcName(g) + " goes on while " + shortExpr(newExprCtx(w).expr(iff.Cond))
+				}
+			}
+		}
+		r.Check(bad == "", "C15.R7", "cmd:client-loops-bounded", "cmd", fmt.Sprintf("%d loops below the remote readers, each driven by a length, a range or a Scanner", n), bad+": whether it ends depends on what the response contains (a name the body does not change keeps it spinning)")
+	}
 	ruleC15R6(w, r, "C15.R6")
 	ruleClientAllocations(w, r, "C15.R8")
 	ruleCmdAllocations(w, r, "C15.R8")
